@@ -14,10 +14,10 @@ from ..core.common import Collector, run_shards
 
 PROPERTY = "C10"
 LEVEL = "model_checking"
-RULE = ("BFS over operation histories to depth 4 (thorough 5): S(i) sync_individual, M(i) mutate individual i (new costs, population id, "
+RULE = ("BFS over operation histories to depth 4 (thorough 5; numpy values and the non-thread-safe store one less, rewrite mode two less): S(i) sync_individual, M(i) mutate individual i (new costs, population id, "
         "features, custom objects), P(i) mutate in place (same dict/list objects), A sync_all; four individuals (two sharing an id) with values from {0.0,-0.0,5e-324,2.2e-308,0.1,1/3,1.8e308,"
         "inf,-inf} as Python floats and numpy float64, costs_signed ending in a bool, features as NSGA-II / swarm / gradient / worst-case "
-        "algorithms write them (incl. parent/child references and id lists), nested custom data; problem definitions with names needing "
+        "algorithms write them (incl. parent/child references and id lists), nested custom data; stores opened by the default constructor, with thread_safe=False and in rewrite mode; two recorded individuals at the same design point; problem definitions with names needing "
         "quoting and extra parameter keys. After EVERY operation the file is reopened with ProblemViewDataStore and with plain sqlite3 and "
         "compared with the reference dict id -> last synchronised image (floats by hex). states = distinct (file rows, in-memory mutation "
         "counters); plus one run() of NSGA-II, EpsMOEA, OMOPSO, SMPSO, PSOGA, Sweep, ScipyOpt, NLopt with a store.")
@@ -101,7 +101,15 @@ def make_world(variant):
     problem.description = "multi\nline 'description'"
     problem.costs[0]["name"], problem.costs[1]["name"] = "weight", "efficiency"
     db = fresh_db("c10")
-    store = SqliteDataStore(problem, database_name=db)
+    # store variants: "float"/"numpy" use the default constructor; "nts" the non-thread-safe connection mode; "rewrite" the
+    # rewrite mode on a file that already exists
+    if variant == "nts":
+        store = SqliteDataStore(problem, database_name=db, thread_safe=False)
+    elif variant == "rewrite":
+        open(db, "w").close()
+        store = SqliteDataStore(problem, database_name=db, mode="rewrite")
+    else:
+        store = SqliteDataStore(problem, database_name=db)
     problem.data_store = store
     wrap = (lambda v: np.float64(v)) if variant == "numpy" else (lambda v: v)
     inds = []
@@ -109,6 +117,7 @@ def make_world(variant):
         ind = Individual([wrap(SPECIAL[(2 * k) % 9]), wrap(SPECIAL[(2 * k + 1) % 9])])
         inds.append(ind)
     inds[2].id = inds[1].id                      # two objects sharing an id
+    inds[3].vector = list(inds[0].vector)        # two recorded individuals (different ids) at the same design point
     # features as the framework's algorithms write them
     a, b, c, d = inds
     a.features.update({'dominate': [b.id, d.id], 'crowding_distance': math.inf, 'domination_counter': 0, 'front_number': 1})
@@ -184,6 +193,10 @@ def apply_history(history, variant):
     out += observe(problem, db, ref, "history %r variant %s" % (history, variant))
     rows = read_rows(db)
     canon = (tuple(sorted((rid, js) for rid, js in rows)), tuple(counts), tuple(pcounts))
+    try:
+        store.destroy()
+    except Exception:
+        pass
     return out, canon
 
 
@@ -359,9 +372,9 @@ def run(tier, seed):
     import artap.algorithm_NSGAII, artap.algorithm_swarm, artap.algorithm_scipy, artap.algorithm_nlopt, artap.algorithm_sweep  # noqa
     depth = 5 if tier == "thorough" else 4
     shards = []
-    for variant in ("float", "numpy"):
+    for variant, dd in (("float", depth), ("numpy", depth - 1), ("nts", depth - 1), ("rewrite", depth - 2)):
         for op in OPS:
-            shards.append(("bfs", op, depth, variant))
+            shards.append(("bfs", op, dd, variant))
     for name in ("NSGAII", "EpsMOEA", "OMOPSO", "SMPSO", "PSOGA", "Sweep", "ScipyOpt", "NLopt"):
         shards.append(("run", name, seed))
     col = run_shards(_shard, shards)
